@@ -49,8 +49,8 @@ TEXT = {
   "sink protocol as preconditions: handle_chunk requires !finalized, a zero-length chunk sets finalized; every emitting function is verified to keep the sink open, emit_token_bytes (the only path of token bytes) skips empty pieces, finish sends the empty chunk exactly on Ok, Dispatcher::new logs the encoding before any byte, flush_encoding_change logs at the current length",
   "HtmlRewriter's guarded! poisoning not yet under contract; serialisers' pieces abstract (R5 stub into_bytes_v)"),
  "C13": ("proof",
-  "dispatcher side: the encoding switch takes effect in flush_encoding_change after the meta tag's token was consumed and the sink is notified before any later byte, Dispatcher::new announces the initial encoding (Verus U-TS); text decoder: over an opaque coder (A-coder) the real feed_text/flush_pending/split_utf8_start loops are verified - no byte bypasses a pending decoder, the decoder never sniffs a BOM, chunk ranges tile the input (Verus U-TXT); UTF-8 width helper complete over all u8 (Kani). Encoder for inserted content: over the same opaque-coder assumption the real TextEncoder::encode loop is verified - the input is covered by consecutive segments, each emitted verbatim only if all its bytes are ASCII, all others handed to the document's encoder in order, nothing skipped or repeated, sink order preserved (Verus U-ENC). What the coder computes (the 36 encodings) is covered only by the bounded encoding oracle against encoding_rs' one-shot decoder.",
-  "A-coder (encoding_rs opaque: consumes a prefix, InputEmpty => all), A-txt-wf (TextDecoder invariant assumed at entry; a Verus limitation blocks re-proving it on the not-last path); A-coder-progress (the `encoding_rs stalled` arm is unreachable only under an assumed progress property of the coder); IncompleteUtf8Resync (streaming UTF-8 writes) not under contract"),
+  "dispatcher side: the encoding switch takes effect in flush_encoding_change after the meta tag's token was consumed and the sink is notified before any later byte, Dispatcher::new announces the initial encoding (Verus U-TS); text decoder: over an opaque coder (A-coder) the real feed_text/flush_pending/split_utf8_start loops are verified - no byte bypasses a pending decoder, the decoder never sniffs a BOM, chunk ranges tile the input (Verus U-TXT); UTF-8 width helper complete over all u8 (Kani). Encoder for inserted content: over the same opaque-coder assumption the real TextEncoder::encode loop is verified - the input is covered by consecutive segments, each emitted verbatim only if all its bytes are ASCII, all others handed to the document's encoder in order, nothing skipped or repeated, sink order preserved (Verus U-ENC); the sink given to streaming handlers writes nothing raw while an encoder is installed, including the U+FFFD for a dangling incomplete sequence (Verus U-SSINK). What the coder computes (the 36 encodings) is covered only by the bounded encoding oracle against encoding_rs' one-shot decoder.",
+  "A-coder (encoding_rs opaque: consumes a prefix, InputEmpty => all), A-txt-wf (TextDecoder invariant assumed at entry; a Verus limitation blocks re-proving it on the not-last path); A-coder-progress (the `encoding_rs stalled` arm is unreachable only under an assumed progress property of the coder); IncompleteUtf8Resync (streaming UTF-8 writes) not under contract; A-ssink-text (write_body_text opaque)"),
  "C14": ("proof",
   "Lexeme::spanned == (previously_consumed + raw.start, input[raw]); create_lexeme_with_raw* build [lexeme_start, pos(+1)); emit actions tile (lexeme_start' == raw.end); every emitted lexeme is well-formed; Align impls are exact shifts so ranges survive a boundary; SpannedRawBytes::{len,set_modified,original} keep start and length Text-chunk source ranges tile their text node for every decoder behaviour (Verus U-TXT).",
   "A-parse-loop (previously_consumed_byte_count += consumed in Parser::parse); text-chunk locations verified in U-TXT (tiling incl. bytes swallowed by the decoder); attribute locations not under contract"),
